@@ -397,6 +397,52 @@ def hooked_class(base, world, how):
     return type('Hooked', (cls,), dict(_vf_world=world))
 
 
+class MissingDict(dict):
+    """A dict subclass that answers through __missing__ (the way
+    collections.defaultdict and Counter do): nothing is stored."""
+
+    def __init__(self, items):
+        # one unrelated stored entry: an empty mapping is false, and the
+        # call mapping is documented as optional (a false one is not used)
+        dict.__init__(self, {'stored-entry': 1})
+        self._computed = dict(items)
+
+    def __missing__(self, key):
+        return self._computed[key]
+
+
+class RecordDict(dict):
+    """A dict subclass with computed fields: __getitem__ is overridden,
+    the stored keys are spelled differently (upper case)."""
+
+    def __init__(self, items):
+        dict.__init__(self, {str(k).upper() + '!': v
+                             for k, v in items.items()})
+
+    def __getitem__(self, key):
+        return dict.__getitem__(self, str(key).upper() + '!')
+
+
+class PlainMapping:
+    """A mapping that is not a dict at all."""
+
+    def __init__(self, items):
+        self._d = dict(items)
+
+    def __getitem__(self, key):
+        return self._d[key]
+
+    def keys(self):
+        return self._d.keys()
+
+    def __len__(self):
+        return len(self._d)
+
+
+MAPPING_CLASSES = dict(missing=MissingDict, record=RecordDict,
+                       plainmapping=PlainMapping)
+
+
 def build(spec, world, mode, keep=None):
     """mode: 'impl' (real DocumentTemplate objects) or 'model'."""
     if not isinstance(spec, dict):
@@ -418,8 +464,11 @@ def build(spec, world, mode, keep=None):
     if t == 'tuple':
         return tuple(build(x, world, mode, keep) for x in spec['items'])
     if t == 'dict':
-        return {k: build(v, world, mode, keep)
-                for k, v in spec['items'].items()}
+        d = {k: build(v, world, mode, keep)
+             for k, v in spec['items'].items()}
+        if spec.get('cls'):
+            return MAPPING_CLASSES[spec['cls']](d)
+        return d
     if t == 'iter':
         return iter([build(x, world, mode, keep) for x in spec['items']])
     if t == 'probe':
